@@ -41,6 +41,7 @@ O_RECV, O_SEND, O_SCTP, O_DTLS, O_ICE = range(5)
 _in_close = contextvars.ContextVar("c19_in_close", default=None)      # pc index while inside the first close()
 _in_ice_stop = contextvars.ContextVar("c19_in_ice_stop", default=None)
 _in_ice_start = contextvars.ContextVar("c19_in_ice_start", default=None)
+_in_any_ice_stop = contextvars.ContextVar("c19_in_any_ice_stop", default=False)
 _in_sctp_stop = contextvars.ContextVar("c19_in_sctp_stop", default=False)
 
 RUN = None            # the current Run
@@ -292,7 +293,7 @@ def install():
         stopping = _in_ice_stop.get()
         starting = _in_ice_start.get()
         mine = stopping is not None and stopping._connection is self
-        if not mine and not (starting is not None and starting._connection is self):
+        if not mine and not _in_any_ice_stop.get() and not (starting is not None and starting._connection is self):
             if not self._closed:
                 _log_obj(self, ("c",), lambda r: (E_ICE_LOST, r[2]))
         r = await orig_conn_close(self)
@@ -422,6 +423,16 @@ def install():
             return res
         cls.stop = stop
 
+    orig_ice_stop_any = I.stop
+
+    async def ice_stop_any(self):
+        tok = _in_any_ice_stop.set(True)
+        try:
+            return await orig_ice_stop_any(self)
+        finally:
+            _in_any_ice_stop.reset(tok)
+    I.stop = ice_stop_any
+
     wrap_stop(R, ("r",), O_RECV)
     wrap_stop(S, ("s",), O_SEND)
     wrap_stop(SC, ("sc",), O_SCTP)
@@ -531,6 +542,37 @@ def _snapshot(run, p):
     return [closed, 1 if pc.signalingState == "closed" else 0, trx, tps, sc, waiters]
 
 
+TP_EVENTS = (E_ICE_START, E_ICE_START_RET, E_DTLS_START, E_DTLS_START_RET, E_PUMP_END, E_MON_END, E_ICE_LOST,
+             E_ICE_CONN_CLOSED)
+
+
+def _referenced(run, p):
+    """indices of the transports still used by a transceiver or by SCTP (transports discarded by
+    bundling are not part of the connection any more: their events are dropped)"""
+    pc = run.pcs[p]
+    run._scan(p)
+    used = set()
+    for i, d in enumerate(run.tp_reg[p]):
+        if any(t.receiver.transport is d for t in pc.getTransceivers()) or \
+                (pc.sctp is not None and pc.sctp.transport is d):
+            used.add(i)
+    return used
+
+
+def _filter_trace(trace, used):
+    out = []
+    for ev in trace:
+        c = ev[0]
+        if c in TP_EVENTS and ev[1] not in used:
+            continue
+        if c == E_CANCEL and ev[2] == K_PUMP and ev[1] not in used:
+            continue
+        if c in (E_STOP_CALL, E_STOP_RET) and ev[2] in (O_DTLS, O_ICE) and ev[1] not in used:
+            continue
+        out.append(ev)
+    return out
+
+
 def _config(run, p):
     pc = run.pcs[p]
     run._scan(p)
@@ -544,6 +586,11 @@ def _config(run, p):
     tps = [idx(t.receiver.transport) for t in pc.getTransceivers()]
     sc = [idx(pc.sctp.transport)] if pc.sctp is not None else []
     return [tps, len(reg), sc]
+
+
+def _blank_unused(snap, used):
+    snap[3] = [tp if i in used else [0, 0, 0, 0, 0] for i, tp in enumerate(snap[3])]
+    return snap
 
 
 async def _consume(track, ended):
@@ -776,8 +823,8 @@ async def _scenario(case, loop, run):
         "status": status, "late": late, "obs": obs, "tasks_left": len(left), "threads_left": len(threads),
         "close_ms": close_ms, "skip": skip, "detail": detail,
         "configs": [_config(run, p) for p in (0, 1)],
-        "snaps": [_snapshot(run, p) for p in (0, 1)],
-        "traces": [run.trace[p] for p in (0, 1)],
+        "snaps": [_blank_unused(_snapshot(run, p), _referenced(run, p)) for p in (0, 1)],
+        "traces": [_filter_trace(run.trace[p], _referenced(run, p)) for p in (0, 1)],
     }
 
 
